@@ -215,7 +215,34 @@ func main() {
 		fmt.Fprintln(os.Stderr, err)
 		os.Exit(1)
 	}
-	rep := map[string]any{"translated": keys(t.done), "untranslated": t.failed, "literals": t.consts}
+	// line ranges of the package's functions (declarations and package-level function literals), for the coverage pass
+	var ranges [][3]any
+	for _, f := range t.pkg.Syntax {
+		fname := shortFile(t.fset.Position(f.Pos()).Filename)
+		for _, d := range f.Decls {
+			switch d := d.(type) {
+			case *ast.FuncDecl:
+				if d.Body != nil {
+					ranges = append(ranges, [3]any{fname, t.fset.Position(d.Pos()).Line, t.fset.Position(d.End()).Line})
+				}
+			case *ast.GenDecl:
+				for _, sp := range d.Specs {
+					if vs, ok := sp.(*ast.ValueSpec); ok {
+						for _, v := range vs.Values {
+							ast.Inspect(v, func(n ast.Node) bool {
+								if fl, ok := n.(*ast.FuncLit); ok {
+									ranges = append(ranges, [3]any{fname, t.fset.Position(fl.Pos()).Line, t.fset.Position(fl.End()).Line})
+									return false
+								}
+								return true
+							})
+						}
+					}
+				}
+			}
+		}
+	}
+	rep := map[string]any{"translated": keys(t.done), "untranslated": t.failed, "literals": t.consts, "funcs": ranges}
 	js, _ := json.MarshalIndent(rep, "", " ")
 	os.WriteFile(report, js, 0o644)
 	fmt.Fprintf(os.Stderr, "gen_model: %d functions translated, %d not (%s)\n", len(t.done), len(t.failed), strings.Join(keysS(t.failed), ", "))
